@@ -180,3 +180,50 @@ T("C04", "aggregate as a generator function", "ir.py",
   """        return itertools.chain.from_iterable(m.proxies for m in self.modules)""",
   """        for m in self.modules:
             yield from m.proxies""")
+
+# ---------------------------------------------------------------------------
+# C16
+F("C16", "revert the _from_iterable fix", "util.py",
+  """    @classmethod
+    def _from_iterable(cls, it: typing.Iterable[S]) -> typing.Set[S]:
+        return set(it)
+""", "", "R16.1")
+F("C16", "revert the update(*iterables) fix", "byteinterval.py",
+  "set().union(*iterables) - self._data", "set(*iterables) - self._data", "R16.2")
+F("C16", "__or__ returns the store itself", "util.py",
+  "        return self._data | other", "        self._data.update(other)\n        return self._data", "R16.3")
+F("C16", "SetWrapper.pop without the KeyError translation", "util.py",
+  """        try:
+            result = next(it)
+        except StopIteration:
+            raise KeyError
+""", """        result = next(it)
+""", "R16.3")
+F("C16", "__ior__ forgets to return self", "util.py",
+  """            self.add(value)
+        return self
+
+    def pop""", """            self.add(value)
+
+    def pop""", "R16.3")
+F("C16", "symbolic expression dict on a plain dict", "byteinterval.py",
+  """self._data: "SortedDict[int, SymbolicExpression]" = SortedDict()""",
+  """self._data: "typing.Dict[int, SymbolicExpression]" = {}""", "R16.5")
+F("C16", "SetWrapper.update via a unary constructor", "util.py",
+  """        for other in others:
+            for v in other:
+                self.add(v)
+
+    def __str__""", """        for v in set(*others):
+            self.add(v)
+
+    def __str__""", "R16.2")
+F("C04", "__delitem__ removes the store entry without the remove hook", "util.py",
+  """        for index in indices:
+            self._remove(self._data[index])
+
+        del self._data[i]""", """        del self._data[i]""", None)
+T("C16", "_from_iterable returning a frozenset-built set", "util.py",
+  "        return set(it)\n", "        return set(frozenset(it))\n")
+T("C16", "update iterating itertools.chain", "byteinterval.py",
+  "set().union(*iterables) - self._data", "set(itertools.chain(*iterables)) - self._data")
